@@ -297,6 +297,29 @@ def sparse_cases():
                 yield {'k': 'sparse', 'shape': sname, 'seq': qname, 'spec': spec, 'ops': seq, 'path': path}
 
 
+def alias_cases():
+    """Fixed shapes (added after seed c08-a-r2): compile inputs that are names defined as other names (2 and 3 links to the
+    cells), outputs that read the underlying cells directly, through the base name and through the alias."""
+    for path in ('dict', 'file'):
+        # two links: ALIAS = BASE, BASE = A1:A2
+        cells = [{'at': [0, 0, 1, 1], 'v': 3.0}, {'at': [0, 0, 2, 1], 'v': 4.0}, {'at': [0, 0, 1, 4], 'v': 5.0},
+                 {'at': [0, 0, 1, 2], 'f': ['bin', '+', ['ref', [0, 0, 1, 1]], ['ref', [0, 0, 2, 1]]]},
+                 {'at': [0, 0, 2, 2], 'f': ['fn', 'SUM', ['name', 1]]},
+                 {'at': [0, 0, 3, 2], 'f': ['bin', '*', ['ref', [0, 0, 1, 1]], ['num', 2.0]]},
+                 {'at': [0, 0, 4, 2], 'f': ['fn', 'SUM', ['name', 0]]},
+                 {'at': [0, 0, 5, 2], 'f': ['bin', '*', ['ref', [0, 0, 1, 4]], ['num', 10.0]]},
+                 {'at': [0, 0, 6, 2], 'f': ['bin', '+', ['name', 2], ['num', 1.0]]}]
+        names = [{'name': 'TOTAL_IN', 'rect': [0, 0, 1, 1, 2, 1]}, {'name': 'my_name', 'rect': [0, 0, 1, 1, 2, 1], 'alias': 0},
+                 {'name': 'Rate.x', 'rect': [0, 0, 1, 4, 1, 4]}, {'name': 'XNAME', 'rect': [0, 0, 1, 4, 1, 4], 'alias': 2}]
+        spec = {'books': [{'name': 'b0.xlsx', 'sheets': ['S1']}], 'cells': cells, 'names': names}
+        outs = [[0, 0, r, 2] for r in (1, 2, 3, 4)]
+        for ins, o, args in ((['name', 1, [[0.0], [0.0]]], outs, [[[[10.0], [20.0]]], [[[1.5], ['zz']]]]),
+                             (['name', 0, [[0.0], [0.0]]], outs, [[[[10.0], [20.0]]], [[[True], [7.0]]]]),
+                             (['name', 3, [[0.0]]], [[0, 0, 5, 2], [0, 0, 6, 2]], [[[[2.0]]], [[[-1.0]]]]),
+                             (['name', 2, [[0.0]]], [[0, 0, 5, 2], [0, 0, 6, 2]], [[[[2.0]]], [[[9.0]]]])):
+            yield {'k': 'model', 'spec': spec, 'ins': [ins], 'outs': o, 'args': args, 'path': path, 'edit': None, 'whatif': True, 'whatif_ovs': []}
+
+
 def check_sparse(case):
     spec, path = case['spec'], case['path']
     fails, funcs, n = [], {}, 0
@@ -426,4 +449,5 @@ def parts(tier, seed):
         ('hyp', 'models', 1200 if q else 12000, 10),
         ('hyp', 'formulas', 4000 if q else 60000),
         ('enum', 'sparse-range-histories', list(sparse_cases()), 3, False),
+        ('enum', 'alias-chains', list(alias_cases()), 2, False),
     ]
